@@ -156,6 +156,24 @@ func edgeAtom(iff *ssa.If, idx int) (string, bool) {
 	return a, t
 }
 
+// edgeAtomOnPath: as edgeAtom; a test of an error variable that several calls assign (`buf, err := read(); if err ==
+// nil { err = decode(buf) }; if err != nil {..}`) is the test of the call whose result the path being searched
+// stored last.
+func edgeAtomOnPath(f *paths.Frame, iff *ssa.If, idx int) (string, bool) {
+	if _, _, direct := paths.ErrEdge(iff, idx); !direct && f != nil {
+		if call, nonNil, ok := f.ErrEdgeOnPath(iff, idx); ok {
+			name := calleeShort(call.Common())
+			if fn := call.Common().StaticCallee(); fn != nil {
+				if inner := errPassThrough(fn, 0); inner != "" {
+					name = inner
+				}
+			}
+			return "err:" + name, nonNil
+		}
+	}
+	return edgeAtom(iff, idx)
+}
+
 // errPassThrough: every return of f yields, as its error, nil or the error result of calls of one and the same
 // callee; returns that callee's short name.
 func errPassThrough(f *ssa.Function, depth int) string {
@@ -513,7 +531,7 @@ func pruneBy(as Assume, extra func(f *paths.Frame, iff *ssa.If, idx int) bool) f
 		if extra != nil && extra(f, iff, idx) {
 			return true
 		}
-		atom, truth := edgeAtom(iff, idx)
+		atom, truth := edgeAtomOnPath(f, iff, idx)
 		if atom == "" {
 			// a comparison of two booleans whose atoms are both assumed: (a > 0) != (b > 0)
 			if v, known := evalBoolUnder(as, iff.Cond); known {
